@@ -29,8 +29,25 @@ func (ex *Exec) call(fr *Frame, st *State, site ssa.Instruction, c *ssa.CallComm
 	}
 	fv, ok := ex.operand(fr, c.Value).(*FuncVal)
 	if !ok {
-		ex.note("%s: call through unknown function value havoced", fr.label)
-		rets = ex.havocCall(st, sig)
+		txt := ex.prog.callFunText(site.Pos())
+		pure := false
+		if top := fr.topFrame(); top.con != nil {
+			for _, a := range top.con.AssumePure {
+				if a == txt {
+					pure = true
+				}
+			}
+		}
+		if pure {
+			ex.assumed[fmt.Sprintf("%s: calls through the function value %s are pure (result determined by the function value and its arguments, no heap effect)", fr.label, txt)] = true
+			flat := append([]*Term{tm(ex.operand(fr, c.Value))}, flatAll(args)...)
+			for i := 0; i < sig.Results().Len(); i++ {
+				rets = append(rets, ufVal(fmt.Sprintf("fv@%s.%d", txt, i), sig.Results().At(i).Type(), flat...))
+			}
+		} else {
+			ex.note("%s: call through unknown function value havoced", fr.label)
+			rets = ex.havocCall(st, sig)
+		}
 	} else {
 		rets = ex.dispatch(fr, st, site, fv.Fn, args, fv.Bindings)
 	}
@@ -312,6 +329,10 @@ func (ex *Exec) calleeEnv(fn *ssa.Function, con *Contract, args []Val, pre, post
 			env.entry[p] = args[i]
 		}
 	}
+	// captures of the callee are not observable from outside: arbitrary values
+	for name, v := range sc.extra {
+		env.objs[v] = freshVal(v.Type(), "cap."+name, nil)
+	}
 	o := fn
 	if fn.Origin() != nil {
 		o = fn.Origin()
@@ -509,10 +530,40 @@ func (ex *Exec) havocElems(st *State, arr *Term, et types.Type) {
 		n, s := heapName(l.sort)
 		old := st.heap.array(n, s)
 		nw := Fresh(n+"@el", s)
-		// cells not rooted at an element of arr keep their value
-		ex.fact(nil, Forall([]*Term{p}, Or(rootedAtElem(p, arr), SameVal(Select(nw, p), Select(old, p)))))
+		// cells that are not a leaf (of this sort) of an element of arr keep their value
+		ex.fact(nil, Forall([]*Term{p}, Or(elemLeafOf(p, arr, et, l.sort, nil, nil), SameVal(Select(nw, p), Select(old, p)))))
 		st.heap.set(n, nw)
 	}
+}
+
+// elemLeafOf: p is the address of a leaf of sort `sort` of element arr[i] (lo <= i < hi when given).
+func elemLeafOf(p, arr *Term, et types.Type, sort string, lo, hi *Term) *Term {
+	paths, ok := leafFieldPaths(et, nil, nil)
+	if !ok {
+		if lo != nil {
+			return rootedAtElemRange(p, arr, lo, hi)
+		}
+		return rootedAtElem(p, arr)
+	}
+	var alts []*Term
+	for _, fp := range paths {
+		if fp.sort != sort {
+			continue
+		}
+		q := p
+		var cs []*Term
+		for k := len(fp.idx) - 1; k >= 0; k-- {
+			cs = append(cs, P.mk("(_ is fld)", "", SBool, []*Term{q}, nil), Eq(P.mk("fidx", "", SInt, []*Term{q}, nil), IntT(int64(fp.idx[k]))))
+			q = P.mk("fbase", "", SPtr, []*Term{q}, nil)
+		}
+		cs = append(cs, P.mk("(_ is elt)", "", SBool, []*Term{q}, nil), Eq(P.mk("ebase", "", SPtr, []*Term{q}, nil), arr))
+		if lo != nil {
+			idx := P.mk("eidx", "", SInt, []*Term{q}, nil)
+			cs = append(cs, Le(lo, idx), Lt(idx, hi))
+		}
+		alts = append(alts, And(cs...))
+	}
+	return Or(alts...)
 }
 
 // rootedAtElem: p is elt(arr,_) or a field path below it (depth <= 3).
